@@ -151,7 +151,14 @@ def _worker(args):
     workdir = tempfile.mkdtemp(prefix="vf_%s_" % mod.ID)
     ctx = {"tier": tier, "workdir": workdir, "widx": widx}
 
+    shrink_budget = [250]
+
     def one(spec):
+        if st["failure"] is not None:
+            # shrinking phase: bounded number of further evaluations (a budget hit keeps the best failure found so far)
+            shrink_budget[0] -= 1
+            if shrink_budget[0] < 0:
+                return
         st["evals"] += 1
         out = checkfn(spec, ctx)
         if out.discard:
